@@ -29,8 +29,9 @@ def main():
     ctx = core.Ctx(pid, a.tier, a.seed)
     ctx.trusted_base = list(core.COMMON_TRUSTED)
     try:
-        ctx.st = core.ensure_build(families=getattr(mod, "FAMILIES", ()), need_harness=True)
-        if not ctx.st.harness:
+        need_h = getattr(mod, "NEED_HARNESS", True)
+        ctx.st = core.ensure_build(families=getattr(mod, "FAMILIES", ()), need_harness=need_h)
+        if need_h and not ctx.st.harness:
             print("BUILD FAILED: the Go harness does not build against /repo's working tree", file=sys.stderr)
             print(ctx.st.harness_error, file=sys.stderr)
             return 2
